@@ -29,6 +29,11 @@ def import_sut():
         raise RuntimeError(f'numqi imported from {f}, expected under {_REPO_PY}')
     import torch
     torch.set_num_threads(1)
+    if os.environ.get('NUMQI_VERIF_MUTANT'):
+        # sensitivity self-test only (DESIGN §2.7): planted defects are monkeypatched in-process, /repo is untouched
+        from selftest import mutants
+        if not getattr(numqi, '_verif_mutant_applied', None):
+            numqi._verif_mutant_applied = mutants.apply_from_env(numqi)
     return numqi
 
 
